@@ -113,6 +113,13 @@ def stub(src, name):
               and x[1][2][2] == ('un', '&', ('index', ('member', ('id', 'error'), 'types', False), ('num', 0)))):
             kind = 'copy'
             facts['copied'] = x[1][2][1]
+        elif (x[0] == 'for' and x[1] and x[1][0] == 'decl' and len(x[1][2]) == 1 and x[1][2][0][1] == ('num', 0) and x[2] and x[2][0] == 'bin'
+              and x[2][1] in ('!=', '<') and x[2][2] == ('id', x[1][2][0][0]) and x[3] == ('un', '++', ('id', x[1][2][0][0]))
+              and [t for t in (x[4][1] if x[4][0] == 'block' else [x[4]]) if t != ('using',)]
+              == [('expr', ('assign', '=', ('index', ('member', ('id', 'error'), 'types', False), ('id', x[1][2][0][0])), ('index', ('id', 'types'), ('id', x[1][2][0][0]))))]):
+            # for (i = 0; i != K; ++i) error.types[i] = types[i];   copies the same K elements as std::copy_n(types, K, &error.types[0])
+            kind = 'copy'
+            facts['copied'] = x[2][3]
         elif x == ('expr', ('call', ('id', 'Policy::error'), [('call', ('id', 'error_type'), [('call', ('id', 'std::move'), [('id', 'error')])])])):
             kind = 'report'
         elif (x[0] == 'decl' and len(x[2]) == 1 and x[2][0][1] is not None and x[1].split()[0] in ('const', 'constexpr') and x[2][0][1][0] != 'lambda'):
